@@ -228,3 +228,54 @@ func verifHarness_C02_dial_then_greeting() {
 	verifAssertD(len(f.rq) == 0, "no-input-left-unread-at-quiescence", "dial-then-greeting")
 	verifAssert(false, "witness")
 }
+
+// two pollers, two connections handed to the engine through the real AddConn
+// (fd hash picks the poller): each connection's bytes reach its own callback
+// invocations, once and in order, whichever poller serves it.
+func verifHarness_C02_two_pollers_two_conns() {
+	verifBound("pollers", 2)
+	verifBound("conns", 2)
+	verifBound("preemptions", 1)
+	vkReset()
+	MaxOpenFiles = 32
+	mode := verifChoose("mode", 3)
+	conf := verifEngineConf(mode)
+	conf.NPoller = 2
+	conf.ReadBufferSize = 2
+	g := NewEngine(conf)
+	got := map[*Conn][]byte{}
+	g.OnData(func(c *Conn, data []byte) { got[c] = append(got[c], data...) })
+	verifSched(true, 1)
+	if err := g.Start(); err != nil {
+		verifFail("engine-start-failed", "")
+		return
+	}
+	var conns []*Conn
+	var fds []*vkFd
+	for i := 0; i < 2; i++ {
+		f := vk.newFd(vkSockStream)
+		c, err := g.AddConn(&Conn{fd: f.fd, typ: ConnTypeTCP})
+		if err != nil {
+			verifFail("addconn-failed", "")
+			return
+		}
+		conns = append(conns, c)
+		fds = append(fds, f)
+	}
+	verifAssertD(conns[0].p != conns[1].p, "setup-connections-on-different-pollers", "")
+	name := verifModeName(mode) + "/two-pollers"
+	verifStepBudget(400000)
+	d0, d1 := verifBytes("in0", 3), verifBytes("in1", 2)
+	fds[0].peerSend(d0)
+	fds[1].peerSend(d1)
+	verifJoin()
+	more := verifBytes("in0b", 1)
+	fds[0].peerSend(more)
+	verifJoin()
+	verifStepBudgetEnd()
+	want0 := append(append([]byte(nil), d0...), more...)
+	verifAssertD(len(got[conns[0]]) == 4 && verifEqBytes(got[conns[0]], want0), "every-byte-delivered-exactly-once", name)
+	verifAssertD(len(got[conns[1]]) == 2 && verifEqBytes(got[conns[1]], d1), "every-byte-delivered-exactly-once", name+"/second")
+	verifAssertD(len(got) == 2, "bytes-attributed-to-their-connection", name)
+	verifAssert(false, "witness")
+}
